@@ -25,13 +25,15 @@ from .common import Check, MachineryError, SPECS, run_tlc, scratch
 SITE = common.VERIF / 'harness' / 'c10_site'       # sitecustomize that neutralises time.sleep (download back-off)
 
 SC_FIELDS = ('mode', 'hash', 'url', 'fb', 'cache', 'files', 'arch', 'patch', 'phash', 'purl', 'pcache', 'pfiles',
-             'parch', 'pdir', 'diff', 'cmd')
+             'parch', 'pdir', 'diff', 'cmd', 'kind', 'vcs', 'rev')
 
 WF_CFG = '''SPECIFICATION Spec
 CONSTANTS Universe = "%s"
 INVARIANT TypeOK
 INVARIANT NeverUnpackBadHash
 INVARIANT NodownloadFetchesNothing
+INVARIANT NoDownloadNeverFetches
+INVARIANT ClientRunsWhenAllowed
 INVARIANT FailedPatchLeavesNoDir
 INVARIANT SecondRunNeverAcceptsHalfPrepared
 INVARIANT SecondRunSameVerdict
@@ -91,6 +93,27 @@ class Archives:
         return self.src_evil if what == 'src' else self.patch_evil
 
 
+VCS_URL = {'git': 'https://c10.invalid/w.git', 'hg': 'https://c10.invalid/hg/w', 'svn': 'https://c10.invalid/svn/w/trunk'}
+VCS_REV = {('git', 'head'): 'HEAD', ('git', 'pinned'): 'v1.0', ('hg', 'head'): 'tip', ('hg', 'pinned'): 'rel-1.0',
+           ('svn', 'head'): 'HEAD', ('svn', 'pinned'): '4711'}
+# recording stub for git / hg / svn (first on PATH): logs its argv; a clone / svn checkout copies a prepared tree
+STUB = '''#!/bin/sh
+name=$(basename "$0")
+echo "$name $*" >> "$C10_VCSLOG"
+fetch=0
+case "$name $*" in
+  svn\\ checkout*) fetch=1 ;;
+  *\\ clone\\ *) fetch=1 ;;
+esac
+if [ "$fetch" = 1 ]; then
+  [ "$C10_VCSFAIL" = 1 ] && exit 1
+  for last in "$@"; do :; done
+  cp -r "$C10_VCSTEMPLATE" "$last" || exit 1
+fi
+exit 0
+'''
+
+
 def _put(path: Path, data: bytes) -> None:
     path.parent.mkdir(parents=True, exist_ok=True)
     path.write_bytes(data)
@@ -101,7 +124,20 @@ def materialise(root: Path, sc: T.Dict[str, T.Any], ar: Archives) -> None:
     sp = proj / 'subprojects'
     sp.mkdir(parents=True)
     (proj / 'meson.build').write_text("project('c10wrap')\nsubproject('w')\nmessage('C10WRAP end')\n")
-    wrap = ['[wrap-file]', f'directory = {DIRNAME}']
+    kind = sc.get('kind', 'file')
+    wrap = [f'[wrap-{kind}]', f'directory = {DIRNAME}']
+    # recording VCS clients, whatever the kind of wrap: no scenario may run one unless the specification says so
+    vb = root / 'vcsbin'
+    vb.mkdir()
+    for name in ('git', 'hg', 'svn'):
+        (vb / name).write_text(STUB)
+        (vb / name).chmod(0o755)
+    tpl = root / 'vcs-template'
+    tpl.mkdir()
+    (tpl / 'meson.build').write_text("project('w', version: '1.0')\nmessage('C10 wrap subproject configured')\n")
+    (tpl / 'data.txt').write_bytes(b'orig\n')
+    (tpl / 'SRC_MARK').write_bytes(b'src\n')
+    (tpl / 'tail.bin').write_bytes(ar.tail)
 
     def place(what: str, state: str, path: Path) -> None:
         if state == 'good':
@@ -110,8 +146,14 @@ def materialise(root: Path, sc: T.Dict[str, T.Any], ar: Archives) -> None:
             _put(path, ar.corrupt(what))
 
     # source
-    wrap.append(f'source_filename = {SRC_FN}')
-    if sc['mode'] == 'url':
+    if kind != 'file':
+        wrap.append(f'url = {VCS_URL[kind]}')
+        wrap.append(f"revision = {VCS_REV[(kind, sc['rev'])]}")
+    else:
+        wrap.append(f'source_filename = {SRC_FN}')
+    if kind != 'file':
+        pass
+    elif sc['mode'] == 'url':
         wrap.append(f'source_url = file://{root}/srv/{SRC_FN}')
         place('src', sc['url'], root / 'srv' / SRC_FN)
         if sc['fb'] != 'none':
@@ -120,7 +162,7 @@ def materialise(root: Path, sc: T.Dict[str, T.Any], ar: Archives) -> None:
         place('src', sc['cache'], sp / 'packagecache' / SRC_FN)
     else:
         place('src', sc['files'], sp / 'packagefiles' / SRC_FN)
-    if sc['hash']:
+    if sc['hash'] and kind == 'file':
         wrap.append('source_hash = ' + hashlib.sha256(ar.good('src', sc)).hexdigest())
     # overlay
     if sc['patch'] in ('url', 'files'):
@@ -190,9 +232,37 @@ def project_fs(root: Path, sc: T.Dict[str, T.Any], ar: Archives) -> T.Dict[str, 
     return {'dir': sorted(marks), 'cache': cache_state('src', SRC_FN), 'pcache': cache_state('patch', PATCH_FN)}
 
 
+def project_calls(root: Path, sc: T.Dict[str, T.Any], n: int) -> T.List[str]:
+    """Invocations of the stub VCS clients during run n, in the vocabulary of the specification."""
+    try:
+        lines = (root / f'vcslog{n}.txt').read_text().splitlines()
+    except OSError:
+        return []
+    kind = sc.get('kind', 'file')
+    out = []
+    for ln in lines:
+        words = ln.split()
+        if kind == 'file' or words[0] != kind:
+            out.append('alien:' + ' '.join(words[:3]))
+            continue
+        url, rev = VCS_URL[kind], VCS_REV[(kind, sc['rev'])]
+        if kind == 'svn':
+            good = words[1:] == ['checkout', '-r', rev, url, DIRNAME]
+            out.append('checkout' if good else 'checkout:badargs' if 'checkout' in words else 'alien:' + ' '.join(words[:3]))
+        elif 'clone' in words:
+            out.append('clone' if words[-2:] == [url, DIRNAME] else 'clone:badargs')
+        elif 'checkout' in words:
+            out.append('checkout' if rev in words else 'checkout:badargs')
+        else:
+            out.append('alien:' + ' '.join(words[:3]))
+    return out
+
+
 def run_cmd(root: Path, sc: T.Dict[str, T.Any], n: int, timeout: int) -> T.Tuple[bool, bool, str]:
     env = {k: v for k, v in os.environ.items() if not k.startswith(('MESON', 'NINJA'))}
-    env.update({'PYTHONPATH': str(SITE), 'C10_NOSLEEP': '1', 'LC_ALL': 'C.UTF-8', 'PYTHONDONTWRITEBYTECODE': '1'})
+    env.update({'PYTHONPATH': str(SITE), 'C10_NOSLEEP': '1', 'LC_ALL': 'C.UTF-8', 'PYTHONDONTWRITEBYTECODE': '1',
+                'PATH': str(root / 'vcsbin') + os.pathsep + env.get('PATH', ''), 'C10_VCSLOG': str(root / f'vcslog{n}.txt'),
+                'C10_VCSTEMPLATE': str(root / 'vcs-template'), 'C10_VCSFAIL': '1' if sc.get('vcs') == 'fail' else '0'})
     meson = [common.PYTHON, str(common.REPO / 'meson.py')]
     if sc['cmd'] == 'download':
         cmd = meson + ['subprojects', 'download', '--sourcedir', 'proj']
@@ -232,13 +302,16 @@ def run_scenario(args: T.Tuple[str, T.Dict[str, T.Any], int]) -> T.Dict[str, T.A
             o = project_fs(root, sc, ar)
             o['ok'] = ok
             o['rc0'] = rc0
+            o['calls'] = project_calls(root, sc, n)
             obs.append(o)
             logs.append(out[-1500:])
     return {'id': cid, 'sc': sc, 'obs': obs, 'logs': logs}
 
 
 def sc_key(sc: T.Dict[str, T.Any]) -> str:
-    if sc['mode'] == 'url':
+    if sc.get('kind', 'file') != 'file':
+        src = f"{sc['kind']}(client={sc['vcs']},rev={sc['rev']})"
+    elif sc['mode'] == 'url':
         src = f"url(hash={int(sc['hash'])},url={sc['url']},fb={sc['fb']},cache={sc['cache']})"
     else:
         src = f"files(hash={int(sc['hash'])},{sc['files']})"
@@ -266,7 +339,8 @@ def judge(chk: Check, cases: T.List[T.Dict[str, T.Any]], label: str) -> None:
     by_id = {c['id']: c for c in cases}
     with scratch('c10t-') as d:
         tf = d / 'cases.json'
-        tf.write_text(json.dumps([{'id': c['id'], 'sc': c['sc'], 'obs': c['obs']} for c in cases]))
+        tf.write_text(json.dumps([{'id': c['id'], 'sc': dict({'kind': 'file', 'vcs': 'ok', 'rev': 'head'}, **c['sc']),
+                                   'obs': c['obs']} for c in cases]))
         env = {'TRACE_FILE': str(tf)}
         res = run_tlc(SPECS / 'deps', 'TraceWrapFetch', env=env, timeout=1800)
         if not res.clean:
@@ -301,7 +375,7 @@ def part2(chk: Check) -> None:
     rnd = random.Random(f'c10-wrap-{chk.seed}')
     if quick:
         # every unpack/patch/diff fault scenario, and a seeded half of the source acquisition table
-        chosen = [s for s in scenarios if s['arch'] != 'ok' or s['patch'] != 'none' or s['diff'] != 'none']
+        chosen = [s for s in scenarios if s['arch'] != 'ok' or s['patch'] != 'none' or s['diff'] != 'none' or s['kind'] != 'file']
         rest = [s for s in scenarios if s not in chosen]
         chosen += rnd.sample(rest, len(rest) // 2)
     else:
@@ -320,7 +394,9 @@ def part2(chk: Check) -> None:
         chk.sample({'id': c['id'], 'scenario': sc_key(c['sc']), 'observed_after_each_run': c['obs']}, limit=14)
     judge(chk, cases, 'A')
     chk.assumptions += [
-        'wrap part: [wrap-file] wraps only (no git/hg/svn, no wrapdb, no MESON_PACKAGE_CACHE_DIR, no lead_directory_missing); '
+        'wrap part: [wrap-git]/[wrap-hg]/[wrap-svn] wraps are fetched by recording stub clients first on PATH (argv logged, a '
+        'prepared tree copied); depth / clone-recursive / push-url / commit-id revisions and git submodules are not generated',
+        'wrap part: [wrap-file] and VCS wraps (no wrapdb, no MESON_PACKAGE_CACHE_DIR, no lead_directory_missing); '
         'URLs are file:// URLs; "corrupt" is a different valid archive, unpack faults are a non-archive and a truncated archive '
         'whose hash is the recorded one; download back-off sleeps are neutralised by a sitecustomize on PYTHONPATH',
         'wrap part: a corrupt file found in the package cache makes the run fail (it is neither used nor replaced); downloads '
@@ -339,8 +415,12 @@ def random_scenarios(rnd: random.Random, n: int, exclude: T.Set[str]) -> T.List[
                                  'patch': rnd.choice(['none', 'url', 'files', 'dir']), 'phash': True, 'purl': 'absent',
                                  'pcache': 'absent', 'pfiles': 'absent', 'parch': 'ok', 'pdir': 'absent',
                                  'diff': rnd.choice(['none', 'none', 'good', 'bad', 'missing']),
-                                 'cmd': rnd.choice(['download', 'setup', 'setup_nodl'])}
-        if s['mode'] == 'url':
+                                 'cmd': rnd.choice(['download', 'setup', 'setup_nodl']),
+                                 'kind': rnd.choice(['file', 'file', 'file', 'git', 'hg', 'svn']), 'vcs': 'ok', 'rev': 'head'}
+        if s['kind'] != 'file':
+            s.update({'mode': 'files', 'hash': True, 'arch': 'ok', 'vcs': rnd.choice(['ok', 'ok', 'fail']),
+                      'rev': rnd.choice(['head', 'pinned'])})
+        elif s['mode'] == 'url':
             s.update({'url': rnd.choice(locs), 'fb': rnd.choice(['none'] + locs), 'cache': rnd.choice(locs)})
         else:
             s['files'] = rnd.choice(locs)
